@@ -1,7 +1,7 @@
 (* C18 — NetConn is a faithful byte stream with correct EOF, type check and deadlines.
    Statements only; proofs in Proofs/NetConnP.v and Proofs/NetConnEofP.v. *)
 From Coq Require Import List NArith ZArith Bool.
-From WS Require Import Base.Words Gen.Consts Model.NetConn Proofs.NetConnP Proofs.NetConnEofP.
+From WS Require Import Base.Words Gen.Consts Gen.ReadCode Model.NetConn Proofs.NetConnP Proofs.NetConnEofP Proofs.GenTieP.
 Import ListNotations.
 
 (* the byte stream: whatever the write sizes (one message per Write, empty messages included) and whatever the positive
@@ -66,3 +66,11 @@ Print Assumptions C18_eof_only_after_normal_close.
 Theorem C18_fail_never_eof : forall calls s, no_normal_close (nc_in s) -> nc_eofed s = false -> ~ In NEOF (fst (nc_run s calls)).
 Proof. exact nc_fail_never_eof_run. Qed.
 Print Assumptions C18_fail_never_eof.
+
+(* tie to the source by translation: a Read that meets the peer's Close frame returns io.EOF exactly for the codes in the
+   `case` list of netConn.read's switch on CloseStatus(err) (netconn.go, regenerated into Gen/ReadCode.v on every run) *)
+Theorem C18_eof_codes_are_source : forall f typ r n code closed,
+  fst (nc_read (S f) {| nc_typ := typ; nc_cur := None; nc_eofed := false; nc_in := NClose code :: r; nc_closed1003 := closed |} n)
+  = (if gen_netconn_eof code then NEOF else NErrClose code).
+Proof. exact netconn_eof_read_is_source. Qed.
+Print Assumptions C18_eof_codes_are_source.
